@@ -1051,6 +1051,7 @@ func (cache *reservationCache) updatePod(oldReservationUID, newReservationUID ty
 	oldRInfo := cache.reservationInfos[oldReservationUID]
 	if oldRInfo != nil && oldPod != nil {
 		oldRInfo.RemoveAssignedPod(oldPod)
+		cache.restoreMatchableNoLock(oldRInfo)
 		// update allocated cache for old reservation
 		if oldRInfo.GetAllocatedPods() == 0 {
 			nodeName := oldRInfo.GetNodeName()
@@ -1078,6 +1079,17 @@ func (cache *reservationCache) updatePod(oldReservationUID, newReservationUID ty
 	}
 }
 
+// restoreMatchableNoLock puts a placed reservation back into matchableOnNode when the removal of a pod made it
+// matchable again (an allocate-once reservation whose only pod left after an event had dropped it from the index).
+func (cache *reservationCache) restoreMatchableNoLock(rInfo *frameworkext.ReservationInfo) {
+	if nodeName := rInfo.GetNodeName(); nodeName != "" && rInfo.IsMatchable() {
+		if cache.matchableOnNode[nodeName] == nil {
+			cache.matchableOnNode[nodeName] = map[types.UID]struct{}{}
+		}
+		cache.matchableOnNode[nodeName][rInfo.UID()] = struct{}{}
+	}
+}
+
 func (cache *reservationCache) deletePod(reservationUID types.UID, pod *corev1.Pod) {
 	cache.deletePods(reservationUID, []*corev1.Pod{pod})
 }
@@ -1091,6 +1103,7 @@ func (cache *reservationCache) deletePods(reservationUID types.UID, pods []*core
 		for _, pod := range pods {
 			rInfo.RemoveAssignedPod(pod)
 		}
+		cache.restoreMatchableNoLock(rInfo)
 		// update allocated cache
 		if rInfo.GetAllocatedPods() == 0 {
 			nodeName := rInfo.GetNodeName()
